@@ -197,6 +197,7 @@ def get_odesys(
 
     unique = OrderedDict()
     unique_units = {}
+    _unique_dims = {}
 
     cstr_fr_fc = (
         ("feedratio", OrderedDict([(sk, "fc_" + sk) for sk in rsys.substances]))
@@ -212,6 +213,10 @@ def get_odesys(
     def _reg_unique_unit(k, arg_dim, idx):
         if unit_registry is None:
             return
+        dim = {dk: dv for dk, dv in arg_dim[idx].items() if dv != 0}
+        if _unique_dims.setdefault(k, dim) != dim:
+            # e.g. one named constant for a first and a second order reaction
+            raise ValueError("Conflicting dimensionalities for key: %s" % k)
         unique_units[k] = reduce(
             mul, [1] + [unit_registry[dim] ** v for dim, v in arg_dim[idx].items()]
         )
